@@ -45,14 +45,15 @@ T_DsLoad   == Point("ds.load",     CanDs(s, Ev.f) /\ Range(Ev.saw) = s.seen[Ev.f
 T_XLoad    == Point("x.load",      CanDs(s, Ev.f), DsEff(s, Ev.f))
 \* nothing to ask for (no parent item selected / every batch item skipped): no request is issued
 T_LoadSkip == Point("ld.load",     CanLoad(s, Ev.f) /\ Ev.b = 1, [LoadEff(s, Ev.f) EXCEPT !.ph[Ev.f] = 5])
-T_Loaded   == Point("ld.loaded",   CanLoaded(s, Ev.f) /\ Ev.b = 0, LoadedEff(s, Ev.f))
+T_Loaded   == Point("ld.loaded",   CanLoaded(s, Ev.f, Ev.b = 1), LoadedEff(s, Ev.f, Ev.b = 1))
+T_Skipped  == Point("ld.skipped",  CanSkipped(deps, s, Ev.f), SkippedEff(tree, s, Ev.f))
 T_Merging  == Point("ld.merging",  CanMerging(s, Ev.f),  MergingEff(s, Ev.f))
 T_Merged   == Point("ld.merged",   CanMerged(s, Ev.f),   MergedEff(tree, s, Ev.f))
 T_Hold     == Point("hold",        CanHold(s, Ev.f),     HoldEff(s, Ev.f))
 T_Unhold   == Point("unhold",      CanUnhold(s, Ev.f),   UnholdEff(s, Ev.f))
 
 TraceNext == T_Reset \/ T_End \/ T_Return \/ T_Prepare \/ T_Prepared \/ T_Load \/ T_DsLoad
-             \/ T_Loaded \/ T_Merging \/ T_Merged \/ T_Hold \/ T_Unhold \/ T_XLoad \/ T_LoadSkip
+             \/ T_Loaded \/ T_Merging \/ T_Merged \/ T_Hold \/ T_Unhold \/ T_XLoad \/ T_LoadSkip \/ T_Skipped
 TraceSpec == TraceInit /\ [][TraceNext]_tvars
 
 Inv_DepsRespected == DepsRespected(tree, deps, s)
